@@ -491,4 +491,18 @@ theorem escaped_backslash_is_sep :
     codeMatch globWin "a\\\\b" "a/b" = some true ∧ codeMatch globWin "a\\\\b" "A\\b" = some true := by
   decide +kernel
 
+/-- **KF-D39 (open finding, recorded in session 4; the hypothesis "no `/` inside a bracket outside path mode" of `win_eq_unix_ci` is FORCED by it).**
+    Windows rules in fnmatch mode (no PATHNAME): `WcParse._sequence` copies a bare `/` inside a bracket as it is, so `a[/]b` accepts `a/b` and
+    rejects `a\b` (and `a[!/]b` accepts `a\b`) although under FORCEWIN `/` and `\` in the name are interchangeable — the written separator
+    outside a bracket and the ESCAPED backslash inside one do accept both.  The model says what the code says (replayed on the real library:
+    `fnmatch('a\\b', 'a[/]b', flags=FORCEWIN)` is False, `fnmatch('a/b', …)` True, translate gives `^(?si:a[/]b)$`). -/
+def fnWinMatch (p n : String) : Option Bool :=
+  match Driver.parsePattern Gen.FFORCEWIN false p.toList with
+  | .error _ => none
+  | .ok parsed => parsed.toRe.map (fun r => r.fullmatch n.toList)
+
+theorem D39_witness :
+    (fnWinMatch "a[/]b" "a/b", fnWinMatch "a[/]b" "a\\b", fnWinMatch "a[!/]b" "a\\b", fnWinMatch "a/b" "a\\b", fnWinMatch "a[\\\\]b" "a/b") =
+      (some true, some false, some true, some true, some true) := by decide +kernel
+
 end WcModel.C17win
